@@ -493,7 +493,7 @@ pub fn run(run: &Run) {
         "every skeleton <= {max} statements (braced bodies, for) x every assignment of 11 template atoms {{x=n, x=in, \
          y=x+1, a[0]=x, y=a[1], out<==y, mid<--x, mid===in, assert(x), var b[x], z=y*2}} / 8 function atoms \
          x 2 conditions {{x>0, n>0}}; for every never-read / no-side-effect / unused-parameter finding: \
-         plus the nest sweep: {{for, if, if-else, while}} x inner {{if, if-else, for}} x 2 inner conditions x \
+         plus the collision sweep (C10's declare/assign/read programs over {{x, x_0, y}}, blocks and for loops, <= 2 (3) statements) and the nest sweep: {{for, if, if-else, while}} x inner {{if, if-else, for}} x 2 inner conditions x \
          atoms {{skip, x=x+in|m, y=y+1, y=x, (x=y*2)}} before / in / after the inner statement, x and y both \
          observed afterwards; 16 (8) valuations x replacement values {{0,1,w+1,p-1}} x {{all instances, instance 0,1,2}}; \
          non-trivial = program with at least one such finding"
@@ -549,6 +549,39 @@ pub fn run(run: &Run) {
         }
         run.violations(vs);
     });
+    // Collision sweep: the declare / assign / read programs of C10 over the colliding identifiers
+    // {x, x_0, y} (shadowing declarations next to a variable literally named `x_0`), judged with
+    // the same perturbation oracle.
+    {
+        use super::c10;
+        let max = run.tier.pick(2, 3);
+        let skels = enumerate(SkelOpts { max_stmts: max, max_depth: 3, allow_for: true, allow_bare: false, allow_block: true, allow_empty_body: false });
+        run.set_extra("collision_skeletons", json!(skels.len()));
+        par_each(&skels, |i, skel| {
+            let na: usize = skel.iter().map(|s| s.atoms()).sum();
+            let nf: usize = skel.iter().map(|s| s.fors()).sum();
+            let dir = root.join(format!("{:?}", std::thread::current().id()).replace(|c: char| !c.is_ascii_alphanumeric(), ""));
+            for ac in 0..c10::ATOMS.pow(na as u32) {
+                let atoms = digits(ac, c10::ATOMS, na);
+                for fc in 0..(1usize << nf) {
+                    let loops = digits(fc, 2, nf);
+                    for template in [false, true] {
+                        let case = json!({"kind": "collision", "max_stmts": max, "index": i, "atoms": atoms, "loops": loops, "template": template});
+                        run.watch(&case);
+                        let def = c10::build(skel, &atoms, &loops, 0, template);
+                        let (vs, stats) = check(&def, &dir, &case);
+                        run.eval(1);
+                        if stats.findings > 0 {
+                            run.nontrivial(1);
+                        }
+                        run.add_extra_count("findings_tested", stats.findings as u64);
+                        run.add_extra_count("perturbed_runs", stats.perturbed_runs);
+                        run.violations(vs);
+                    }
+                }
+            }
+        });
+    }
     let _ = std::fs::remove_dir_all(&root);
     run.assume("effects are exactly those the property lists: values assigned to the template's own input/output signals, both sides of constraints mentioning such a signal, assertion arguments, the return value, array dimensions, branch decisions; a value that only reaches a sub-component port is not an effect");
     run.assume("runs that trap in either execution are discarded");
@@ -559,6 +592,17 @@ pub fn replay(case: &Value) -> Vec<Violation> {
     let get = |k: &str| -> Vec<usize> {
         case[k].as_array().map(|a| a.iter().map(|v| v.as_u64().unwrap_or(0) as usize).collect()).unwrap_or_default()
     };
+    if case["kind"].as_str() == Some("collision") {
+        let max = case["max_stmts"].as_u64().unwrap_or(2) as usize;
+        let skels = enumerate(SkelOpts { max_stmts: max, max_depth: 3, allow_for: true, allow_bare: false, allow_block: true, allow_empty_body: false });
+        let get = |k: &str| -> Vec<usize> { case[k].as_array().map(|a| a.iter().map(|v| v.as_u64().unwrap_or(0) as usize).collect()).unwrap_or_default() };
+        let out = match skels.get(case["index"].as_u64().unwrap_or(0) as usize) {
+            Some(skel) => check(&super::c10::build(skel, &get("atoms"), &get("loops"), 0, case["template"].as_bool().unwrap_or(false)), &root, case).0,
+            None => Vec::new(),
+        };
+        let _ = std::fs::remove_dir_all(&root);
+        return out;
+    }
     if case["kind"].as_str() == Some("nest") {
         let out = check(&nest_def_of(case), &root, case).0;
         let _ = std::fs::remove_dir_all(&root);
